@@ -612,6 +612,7 @@ CPR_CALLERS = {
     "StateEngine.branch_has_terminated": ("has_terminated", "this event belongs to a terminated fan-out"),
     "StateEngine.notify.handle_terminal_state": ("task_terminated", "a cancelled Task of a terminated fan-out reports back"),
     "StateEngine.notify.handle_error": ("state.get('Type') in ('Parallel', 'Map')", "the state being retried is the fan-out state itself, whose branches were terminated"),
+    "StateEngine.check_for_expired_branch_results": ("branch_metadata.ended", "the execution has already FAILED and its deadline has passed: every group was marked terminated just before (fix f0dd037)"),
 }
 
 
